@@ -1,4 +1,4 @@
-#!/usr/bin/env python3
+#!/venv/bin/python
 """Regenerate MANIFEST.json from the property modules that exist (mc/props/cNN.py)."""
 import json
 import re
@@ -13,9 +13,17 @@ for p in props:
     mod = V / "mc" / "props" / f"{pid.lower()}.py"
     note = NOTES.get(pid, {})
     if mod.exists() and not note.get("disabled"):
-        src = mod.read_text()
-        m = re.search(r'TECHNIQUE\s*=\s*\(?\s*((?:"[^"]*"\s*)+)\)?', src)
-        tech = "".join(re.findall(r'"([^"]*)"', m.group(1))) if m else "bounded exhaustive enumeration"
+        import importlib, sys
+        sys.path.insert(0, str(V))
+        M = importlib.import_module(f"mc.props.{pid.lower()}")
+        tech = getattr(M, "TECHNIQUE", "bounded exhaustive enumeration")
+        note.setdefault("text", "Model checking by exhaustive enumeration on the real implementation: "
+                        + getattr(M, "RULE", "") + ".  Holds for every case inside the bounds; the "
+                        "thorough tier raises the bounds, never changes the oracle.")
+        note.setdefault("note", "Bounds / assumptions: " + "; ".join(getattr(M, "ASSUMPTIONS", []))
+                        + ".  Trusted base: the pure-Python reference model (mc/refmodel.py), "
+                        "numpy/pandas for container plumbing and as stated oracles, the harness-side "
+                        "seams of DESIGN.md 1.4.")
         checks.append(dict(
             property_id=pid,
             quick_cmd=f"./check {pid} --tier quick",
